@@ -4053,6 +4053,7 @@ EXT = {
     "numpy.fft.fftfreq": h_fftfreq, "numpy.fft.rfftfreq": h_rfftfreq,
     "dask.array.fft.rfftfreq": lambda ev, a, k, fr, n: h_rfftfreq(ev, a, k, fr, n, backend="dask"),
     "dask.array.fft.fftfreq": lambda ev, a, k, fr, n: h_fftfreq(ev, a, k, fr, n, backend="dask"),
+    "builtins.object": lambda ev, a, k, fr, n: OpaqueV("object"),          # object(): a fresh sentinel, identical to itself only
     "numpy.isinf": lambda ev, a, k, fr, n: h_isinf(ev, a, k, fr, n), "math.isinf": lambda ev, a, k, fr, n: h_isinf(ev, a, k, fr, n),
     "numpy.may_share_memory": lambda ev, a, k, fr, n: h_may_share(ev, a, k, fr, n), "numpy.shares_memory": lambda ev, a, k, fr, n: h_may_share(ev, a, k, fr, n),
     "numpy.zeros_like": lambda ev, a, k, fr, n: h_zeros_like(ev, a, k, fr, n, 0), "numpy.ones_like": lambda ev, a, k, fr, n: h_zeros_like(ev, a, k, fr, n, 1),
